@@ -77,6 +77,8 @@ func refCK(i int) uint32 {
 }
 
 func checkC05(c *Ctx) {
+	defer retainedParams(c, "FX-C11-retain", "sm4")
+
 	c.Decided = append(c.Decided,
 		"K-C05: S-box = GM/T 0002 S-box (all 256 entries, reference computed algebraically in the checker); T-tables T_k[x] = L(S(x)<<8k) (4x256 entries); CK (32), FK (4); key-schedule linear transform uses rotations {13,23}; tau places S(byte k) at byte k",
 		"K-C05-wiring: in the block routine every T-table lookup is indexed by its own byte lane of one word x, x = xor of the three other state words and one round key, result xored into the remaining word (32 rounds enumerated over the unrolled loops)",
